@@ -699,7 +699,9 @@ func c11StructOps(sp, other *samlgen.KeyPair) []c11Op {
 			if e := ek(ed); e != nil {
 				w, _ := xenc.WrapKey(xenc.KeyTransport{Alg: xenc.OAEPMGF1P, DigestURI: "http://www.w3.org/2000/09/xmldsig#sha1"},
 					&other.Key.(*rsa.PrivateKey).PublicKey, harness.NewCtr("w2"), detKey(16, "cekaes128-cbc"))
-				lastChild(e, "CipherData").ChildElements()[0].SetText(base64.StdEncoding.EncodeToString(w))
+				if cd := lastChild(e, "CipherData"); cd != nil && len(cd.ChildElements()) > 0 { // an earlier operator may have removed it
+					cd.ChildElements()[0].SetText(base64.StdEncoding.EncodeToString(w))
+				}
 			}
 			return false
 		}},
